@@ -251,6 +251,9 @@ FAULTS = {
                      and _has_foreign(x, e, pi, pos)),
     # rule 7 -- unpicklable value
     'unpicklable': ('val', 7, _set(pick=False), None),
+    # can be dumped but not loaded back (a Value whose constructor needs an
+    # argument: Value.__setstate__ calls self.__class__())
+    'unloadable': ('val', 7, _set(pick='noload'), None),
     # rule 8 -- component types of references
     'ref_factory_type': ('ref', 8, _set(fac=None, real=None), None),
     'ref_impl_type': ('ref', 8, _set(impl_ok=False, real=None), None),
@@ -428,7 +431,7 @@ def g_param(p):
 
 def g_value(v):
     return '(mkValue %s %s %s %s %s)' % (_name(v['key']), _b(v['isval']), _VER[v['ver']],
-                                         _b(v['pick']), _b(v['feat']))
+                                         _b(v['pick'] is True), _b(v['feat']))
 
 
 def g_sv(s):
